@@ -1,5 +1,6 @@
 from __future__ import annotations
 
+import re
 from typing import Awaitable, Callable, Dict, List, Optional, Tuple, Type, Union
 
 import h2
@@ -27,6 +28,8 @@ from ..config import Config
 from ..events import Closed, Event, RawData, Updated
 from ..typing import AppWrapper, ConnectionState, Event as IOEvent, TaskGroup, WorkerContext
 from ..utils import filter_pseudo_headers
+
+_INVALID_HEADER_BYTES = re.compile(rb"[\x00\r\n]")
 
 BUFFER_HIGH_WATER = 2 * 2**14  # Twice the default max frame size (two frames worth)
 BUFFER_LOW_WATER = BUFFER_HIGH_WATER / 2
@@ -228,6 +231,12 @@ class H2Protocol:
             await self.has_data.set()
 
     async def stream_send(self, event: StreamEvent) -> None:
+        if isinstance(event, (InformationalResponse, Response, Trailers, Request)):
+            # h2 does not check outbound header bytes
+            for name, value in event.headers:
+                if _INVALID_HEADER_BYTES.search(name) or _INVALID_HEADER_BYTES.search(value):
+                    raise ValueError(f"Invalid character in header {name!r}")
+
         try:
             if isinstance(event, (InformationalResponse, Response)):
                 self.connection.send_headers(
